@@ -18,6 +18,12 @@ CHECKS = {
         "The reference evaluator (sem.rs) is the trusted base; its reading of the manual is listed in DESIGN.md Appendix A. Floats: IEEE-exact except transcendentals/float powers (2 ulp); float = within the undocumented epsilon is discarded.",
         "6 C02",
     ),
+    "C12": (
+        "differential testing over proptest-generated session prefixes (earlier complete/failed/stopped/interrupted runs, direct assignments, DIM, DEFtype, partial READ, open FOR/GOSUB frames, program switches): RUN after the prefix vs RUN in a fresh interpreter; CLEAR/NEW + probe battery vs fresh",
+        "Exploration of session histories with a differential oracle: whatever the prefix left behind, RUN / RUN n must give the transcript and final variables of a fresh interpreter holding the same listing, and after CLEAR or NEW an 18-probe battery (every name, re-DIM, DEFtype exposure, READ, RETURN, NEXT, CONT, FNx) must be indistinguishable from a fresh start.",
+        "Same implementation on both sides; the prefix generator aims at every kind of state the statement lists (labels in the evidence show how often each kind was present).",
+        "6 C12",
+    ),
     "C13": (
         "differential testing over schedules: proptest-generated programs single-stepped and interrupted at every instruction boundary (and every INPUT wait) then CONT, STOP/END inserted at random statement boundaries, and eight step quanta + random per-call quanta, all compared with the uninterrupted run",
         "Exploration of the schedule space with a differential oracle: for short runs every k of 'interrupt after k instructions' is tried (sampled above 120/400), so each generated program contributes a complete sweep of its interruption points; output before the break + output after CONT, prompts, errors and final variables must equal the uninterrupted run; all quanta must give identical event streams.",
